@@ -111,7 +111,7 @@ func Interpret(text string, opt Options) (*Parsed, error) {
 				return nil, fmt.Errorf("line %d: empty token", li+1)
 			}
 			for i := 0; i < len(tk); i++ {
-				if tk[i] <= 0x20 || tk[i] == 0x7f {
+				if tk[i] <= 0x20 {
 					return nil, fmt.Errorf("line %d: control/whitespace byte in token %q", li+1, tk)
 				}
 			}
